@@ -26,7 +26,7 @@ class C03(core.Prop):
     theorems = ['TddaVerif.Props.C03.' + t for t in [
         'matchCap_sound', 'matchCap_complete', 'coarse_sound', 'batch_extract_sound', 'extract_sound',
         'extract_sampled_sound', 'extract_sampled_terminates', 'extract_sampled_eq_batch',
-        'tie_constants', 'tie_general_alnums']]
+        'tie_constants', 'tie_general_alnums', 'extract_sound_every_size', 'extract_sampled_sound_every_size', 'extract_sampled_eq_batch_every_size']]
     quick_n = 1500
     thorough_n = 40000
     rule = ('cases: example multisets of 1..14 strings from structured families (ids, phones, urls, e-mails, names, hex, '
@@ -87,7 +87,7 @@ class C03(core.Prop):
             return []
         form = 'dict' if case['form'] == 'dict' else 'list'
         if rx.nosampling(case['examples'], case['opts'], case['size']):
-            return [rx.model_extract_op(case['examples'], case['opts'], form)]
+            return [rx.model_extract_op(case['examples'], case['opts'], form, case['size'])]
         # with sampling: the loop model, replaying what random.sample returned in the run it is compared with
         res, exc, picks = self._recorded(case)
         if exc is not None or any(not isinstance(x, list) for p in picks for x in p):
